@@ -399,7 +399,13 @@ Inductive hev :=
 | HEndResponse (reser : N) (revisit : option bytes)
       (* len(response.to_bytes()); what url_table.get_revisit_id returned (None also
          when there is no url_table) *)
-| HClose.
+| HClose
+| HWriteFailed.
+      (* the append attempted at the end of the request (stage 1) or of the response (stage 3) failed
+         with an I/O error: write_record rolled the file back (C06_io_error_restores: content, journal and
+         every other file exactly as before), wrote no CDX line and re-raised; the exception ends the
+         session.  Nothing of the recorder's own state changed: offsets are read from the file again at
+         the next append. *)
 
 Definition truthy_id (o : option bytes) : option bytes :=
   match o with Some (c :: r) => Some (c :: r) | _ => None end.
@@ -474,6 +480,10 @@ Definition http_event (fuel : nat) (O : oracles) (C : cfg) (st : state) (sid : n
       end
   | HClose, Some (SH h) =>
       flush_session fuel O C (with_sess st (sdel sid (st_sess st)))
+  | HWriteFailed, Some (SH h) =>
+      if Nat.eqb (h_stage h) 1 || Nat.eqb (h_stage h) 3 then
+        Some (with_sess st (sput sid (SH (mkH 5 (h_url h) (h_ip h) None None (h_tmp h) (h_poff h) (h_head h))) (st_sess st)))
+      else None
   | _, _ => None
   end.
 
